@@ -195,7 +195,7 @@ def main():
     ap.add_argument("--timeout", type=int, default=0, help="override every obligation's solver timeout (debugging)")
     a = ap.parse_args()
     tier = os.environ.get("VERIF_TIER") or a.tier
-    if tier not in ("quick", "thorough"):
+    if tier not in ("quick", "thorough", "attempt"):
         tier = "quick"
     seed = int(os.environ.get("VERIF_SEED", "0") or 0)
     pid = a.pid
@@ -203,7 +203,10 @@ def main():
     suite_dir = os.path.join(VERIF, "suites", pid)
     if a.replay:
         sys.exit(R.replay_file(a.replay, pid, suite, suite_dir))
-    obs = [o for o in suite.OBLIGATIONS if tier == "thorough" or o.get("tier", "quick") == "quick"]
+    # quick: the quick obligations; thorough: quick + thorough; attempt: only obligations kept out of both tiers because no
+    # back end has finished them yet (never part of a registered command)
+    want = {"quick": ("quick",), "thorough": ("quick", "thorough"), "attempt": ("attempt",)}[tier]
+    obs = [o for o in suite.OBLIGATIONS if o.get("tier", "quick") in want]
     if a.only:
         obs = [o for o in suite.OBLIGATIONS if re.search(a.only, o["name"])]
     if a.list:
